@@ -3,6 +3,7 @@ package main
 import (
 	"fmt"
 	"go/ast"
+	"go/token"
 	"go/types"
 	"sort"
 	"strings"
@@ -38,6 +39,7 @@ func checkC03(r *Run) {
 	r.Rule("C03.R1.GUARD", "every read of index.mu.pointers / persistHead holds idx.mu (R or W), every write holds it in W mode, locally or in every caller chain", 20)
 	r.Rule("C03.R2.insert", "in index.insert every store to the pointer table is reachable only across an edge that proves no overlap for the inserted range, and after a store no conflict error is returned", 4)
 	r.Rule("C03.R2.update", "in index.update the store is reachable only across the false edges of both neighbour-overlap tests, each computed with TimeRange.OverlapsWith(p.TimeRange); after the store no conflict error is returned", 4)
+	r.Rule("C03.R2.direction", "the binary search of unprotectedSearch turns left exactly when the searched range lies wholly before the probed domain and right exactly when it lies wholly after it (decided on every ordering of the four end points of two non-overlapping ranges): any other direction skips the half of a sorted, disjoint table that holds the overlap or the insert position", 1)
 	r.Rule("C03.R2.search", "unprotectedSearch reports overlap (second result true) only on the true edge of ptr.OverlapsWith(tr) for its parameter tr", 1)
 	r.Rule("C03.R3.open", "DB.OpenWriter acquires a file handle only on the false edge of idx.overlap(cfg.Domain())", 1)
 	r.Rule("C03.R3.commit", "Writer.commit reaches index.insert/update only after validateCommitRange returned nil and behind the preset-end test; only Writer.commit references index.insert/update", 4)
@@ -98,6 +100,7 @@ func checkC03(r *Run) {
 	checkInsert(r, p, ptrField)
 	checkUpdate(r, p, ptrField)
 	checkSearch(r, p)
+	checkSearchDirection(r, p)
 	checkOpenWriterGate(r, p)
 	checkCommitGate(r, p, refs)
 }
@@ -525,4 +528,193 @@ func checkCommitGate(r *Run, p *Prog, refs *Refs) {
 			r.ObPath("C03.R4.advance", fmt.Sprintf("assignment #%d of Writer.%s in commit follows a successful index call", i+1, fld), p.Position(s.B.Nodes[s.I].Pos()), path == nil, why, path)
 		}
 	}
+}
+
+// ---------------------------------------------------------------------------------
+// C03.R2.direction: finite case analysis of the binary-search direction test. The four
+// end points (tr.Start, tr.End, ptr.Start, ptr.End) are given every weak ordering with
+// tr.Start <= tr.End, ptr.Start < ptr.End in which the two ranges do not overlap; the
+// direction condition is evaluated on the syntax tree (TimeStamp comparison methods
+// inlined from their one-line bodies).
+// ---------------------------------------------------------------------------------
+
+type pointEval struct {
+	p   *Prog
+	fn  *FuncNode
+	val map[string]int
+	bad string
+}
+
+func (e *pointEval) num(x ast.Expr) (int, bool) {
+	v, ok := e.val[types.ExprString(ast.Unparen(x))]
+	return v, ok
+}
+
+func (e *pointEval) expr(x ast.Expr) bool {
+	switch v := ast.Unparen(x).(type) {
+	case *ast.UnaryExpr:
+		if v.Op == token.NOT {
+			return !e.expr(v.X)
+		}
+	case *ast.BinaryExpr:
+		switch v.Op {
+		case token.LAND:
+			return e.expr(v.X) && e.expr(v.Y)
+		case token.LOR:
+			return e.expr(v.X) || e.expr(v.Y)
+		}
+		a, ok1 := e.num(v.X)
+		b, ok2 := e.num(v.Y)
+		if ok1 && ok2 {
+			switch v.Op {
+			case token.LSS:
+				return a < b
+			case token.LEQ:
+				return a <= b
+			case token.GTR:
+				return a > b
+			case token.GEQ:
+				return a >= b
+			case token.EQL:
+				return a == b
+			case token.NEQ:
+				return a != b
+			}
+		}
+	case *ast.CallExpr:
+		if len(v.Args) == 1 {
+			if sel, ok := ast.Unparen(v.Fun).(*ast.SelectorExpr); ok {
+				if f := CalleeFunc(e.fn, v); f != nil {
+					if callee, ok := e.p.ByObj[f]; ok && callee.Decl != nil && callee.Body != nil && len(callee.Body.List) == 1 && callee.Decl.Recv != nil && len(callee.Decl.Recv.List[0].Names) == 1 {
+						if ret, ok := callee.Body.List[0].(*ast.ReturnStmt); ok && len(ret.Results) == 1 {
+							if be, ok := ast.Unparen(ret.Results[0]).(*ast.BinaryExpr); ok {
+								rv := callee.Pkg.TypesInfo.Defs[callee.Decl.Recv.List[0].Names[0]]
+								pv := paramObj(callee, 0)
+								a, b := objOf(callee, be.X), objOf(callee, be.Y)
+								switch {
+								case a == rv && b == pv:
+									return e.expr(&ast.BinaryExpr{X: sel.X, Op: be.Op, Y: v.Args[0]})
+								case a == pv && b == rv:
+									return e.expr(&ast.BinaryExpr{X: v.Args[0], Op: be.Op, Y: sel.X})
+								}
+							}
+						}
+					}
+				}
+			}
+		}
+	}
+	if e.bad == "" {
+		e.bad = "expression outside the comparison fragment: " + types.ExprString(x)
+	}
+	return false
+}
+
+func checkSearchDirection(r *Run, p *Prog) {
+	fn := p.Func(domainPkg, "index", "unprotectedSearch")
+	if fn == nil {
+		r.Undecide("C03.R2.direction: index.unprotectedSearch not found")
+		return
+	}
+	tr := paramObj(fn, 0)
+	// the loop "for lo <= hi"
+	var loop *ast.ForStmt
+	inspectNoLit(fn.Body, func(x ast.Node) bool {
+		if f, ok := x.(*ast.ForStmt); ok && loop == nil {
+			loop = f
+		}
+		return true
+	})
+	if loop == nil || tr == nil {
+		r.Undecide("C03.R2.direction: the search loop of unprotectedSearch was not found")
+		return
+	}
+	be, ok := ast.Unparen(loop.Cond).(*ast.BinaryExpr)
+	if !ok || (be.Op != token.LEQ && be.Op != token.LSS) {
+		r.Undecide("C03.R2.direction: loop condition %s is not 'low <= high'", types.ExprString(loop.Cond))
+		return
+	}
+	lo, hi := objOf(fn, be.X), objOf(fn, be.Y)
+	// ptr := <table>[mid]
+	var ptr types.Object
+	inspectNoLit(loop.Body, func(x ast.Node) bool {
+		if as, ok := x.(*ast.AssignStmt); ok && len(as.Lhs) == 1 && len(as.Rhs) == 1 {
+			if _, ok := ast.Unparen(as.Rhs[0]).(*ast.IndexExpr); ok && ptr == nil {
+				ptr = objOf(fn, as.Lhs[0])
+			}
+		}
+		return true
+	})
+	// the direction statement: if COND { hi = ... } else { lo = ... } (or mirrored)
+	var dir *ast.IfStmt
+	leftOnTrue := false
+	for _, st := range loop.Body.List {
+		ifs, ok := st.(*ast.IfStmt)
+		if !ok || ifs.Else == nil {
+			continue
+		}
+		assigns := func(b ast.Node, o types.Object) bool {
+			hit := false
+			inspectNoLit(b, func(y ast.Node) bool {
+				if as, ok := y.(*ast.AssignStmt); ok {
+					for _, l := range as.Lhs {
+						if objOf(fn, l) == o {
+							hit = true
+						}
+					}
+				}
+				return true
+			})
+			return hit
+		}
+		switch {
+		case assigns(ifs.Body, hi) && assigns(ifs.Else, lo):
+			dir, leftOnTrue = ifs, true
+		case assigns(ifs.Body, lo) && assigns(ifs.Else, hi):
+			dir, leftOnTrue = ifs, false
+		}
+	}
+	if dir == nil || ptr == nil || lo == nil || hi == nil {
+		r.Undecide("C03.R2.direction: the direction statement of the binary search was not recognised")
+		return
+	}
+	e := &pointEval{p: p, fn: fn}
+	var diffs []string
+	cases := 0
+	for a := 0; a < 4; a++ {
+		for b := a; b < 4; b++ {
+			for c := 0; c < 4; c++ {
+				for d := c + 1; d < 4; d++ {
+					left := b <= c && a != c
+					right := a >= d
+					if !left && !right {
+						continue // overlapping (or equal starts): handled by the OverlapsWith branch
+					}
+					cases++
+					e.val = map[string]int{
+						tr.Name() + ".Start": a, tr.Name() + ".End": b,
+						ptr.Name() + ".Start": c, ptr.Name() + ".End": d,
+						ptr.Name() + ".TimeRange.Start": c, ptr.Name() + ".TimeRange.End": d,
+					}
+					got := e.expr(dir.Cond)
+					if e.bad != "" {
+						r.Undecide("C03.R2.direction: %s", e.bad)
+						return
+					}
+					goesLeft := got == leftOnTrue
+					if goesLeft != left {
+						diffs = append(diffs, fmt.Sprintf("tr=[%d,%d) ptr=[%d,%d): turns %s, the range lies %s", a, b, c, d, map[bool]string{true: "left", false: "right"}[goesLeft], map[bool]string{true: "before", false: "after"}[left]))
+					}
+				}
+			}
+		}
+	}
+	detail := fmt.Sprintf("%d orderings of two non-overlapping ranges", cases)
+	if len(diffs) > 0 {
+		if len(diffs) > 4 {
+			diffs = append(diffs[:4], fmt.Sprintf("... %d more", len(diffs)-4))
+		}
+		detail = strings.Join(diffs, "; ")
+	}
+	r.Ob("C03.R2.direction", "unprotectedSearch turns towards the side the searched range lies on", posOf(p, dir), len(diffs) == 0 && cases > 0, detail)
 }
